@@ -136,6 +136,21 @@ func c11Exec(w *c11World, prog []c11Node) (flat []c11Flat, mustReject bool, ambi
 					flat = append(flat, c11Flat{Method: m, Path: prefix + n.Path, IDs: all})
 				}
 				w.f.Any(n.Path, w.hs(own)...)
+			case "combo-get", "combo-post":
+				// one method on a Combo of its own: separate Combo calls for one path are separate registrations
+				common := ids(n.NH)
+				own := ids(1)
+				all := append(append(append([]int{}, outer...), common...), own...)
+				if n.Kind == "combo-get" {
+					flat = append(flat, c11Flat{Method: "GET", Path: prefix + n.Path, IDs: all})
+					if autoHead {
+						flat = append(flat, c11Flat{Method: "HEAD", Path: prefix + n.Path, IDs: all})
+					}
+					w.f.Combo(n.Path, w.hs(common)...).Get(w.hs(own)...)
+				} else {
+					flat = append(flat, c11Flat{Method: "POST", Path: prefix + n.Path, IDs: all})
+					w.f.Combo(n.Path, w.hs(common)...).Post(w.hs(own)...)
+				}
 			case "combo", "combo-spare", "combo-dup":
 				common := ids(n.NH)
 				g, p := ids(1), ids(1)
@@ -345,6 +360,16 @@ func c11FlattenOnly(prog []c11Node) (flat []c11Flat, mustReject, amb bool) {
 				for _, m := range c08KnownMethods {
 					flat = append(flat, c11Flat{Method: m, Path: prefix + n.Path, IDs: all})
 				}
+			case "combo-get", "combo-post":
+				all := append(append(append([]int{}, outer...), ids(n.NH)...), ids(1)...)
+				if n.Kind == "combo-get" {
+					flat = append(flat, c11Flat{Method: "GET", Path: prefix + n.Path, IDs: all})
+					if autoHead {
+						flat = append(flat, c11Flat{Method: "HEAD", Path: prefix + n.Path, IDs: all})
+					}
+				} else {
+					flat = append(flat, c11Flat{Method: "POST", Path: prefix + n.Path, IDs: all})
+				}
 			case "combo", "combo-spare", "combo-dup":
 				base := append(append([]int{}, outer...), ids(n.NH)...)
 				g, p := ids(1), ids(1)
@@ -457,6 +482,22 @@ func c11Programs(thorough bool) [][]c11Node {
 			}
 		}
 	}
+	// separate Combo calls for one path (each with common handlers of its own), flat, in one group, and
+	// from two groups that resolve to the same full path
+	for _, a := range []string{"combo-get", "combo-post"} {
+		for _, b := range []string{"combo-get", "combo-post", "get", "post"} {
+			if a == b || (a == "combo-get" && b == "get") || (a == "combo-post" && b == "post") {
+				continue
+			}
+			for _, nh := range [][2]int{{1, 1}, {1, 2}, {2, 1}, {0, 1}} {
+				x, y := c11Node{Kind: a, Path: "/a", NH: nh[0]}, c11Node{Kind: b, Path: "/a", NH: nh[1]}
+				progs = append(progs, []c11Node{x, y}, []c11Node{y, x},
+					[]c11Node{{Kind: "group", Path: "/g", NH: 1, Children: []c11Node{x, y}}},
+					[]c11Node{{Kind: "group", Path: "/g", NH: 1, Children: []c11Node{x}}, {Kind: "group", Path: "/g", NH: 2, Children: []c11Node{y}}},
+					[]c11Node{{Kind: "group", Path: "/g", NH: 0, Children: []c11Node{{Kind: a, Path: "/a/a", NH: nh[0]}}}, {Kind: "group", Path: "/g/a", NH: 1, Children: []c11Node{y}}})
+			}
+		}
+	}
 	// a route with an optional last segment and the literal path its long form covers, under every pair of
 	// registration kinds (each method's tree has its own earlier/later order), flat and inside a group
 	{
@@ -513,7 +554,7 @@ func c11Run(r *core.Run) {
 	}
 	progs := c11Programs(r.Thorough())
 	paths := c11Paths(r.Thorough())
-	r.Rule = "engine E over registration programs: sequences of leaves {Get, Get(...).Headers(...), Post, Routes(comma list), Routes(several method strings), Any, Combo.Get.Post (also with a spare-capacity caller slice, and the same method twice), AutoHead on/off} inside 0..2 levels of Group(prefix, 0..2 handlers); each program is executed through the real grouping API on one Flame and as its flat single-method expansion (concatenated paths and handler-id lists) on a second Flame; every request (5 methods x all paths up to 2-3 segments over the program's literals) must run the same handler ids in the same order with the same parameters; non-trivial = request that runs at least one handler"
+	r.Rule = "engine E over registration programs: sequences of leaves {Get, Get(...).Headers(...), Post, Routes(comma list), Routes(several method strings), Any, Combo.Get.Post (also with a spare-capacity caller slice, the same method twice, and separate Combo calls for one path), AutoHead on/off} inside 0..2 levels of Group(prefix, 0..2 handlers); each program is executed through the real grouping API on one Flame and as its flat single-method expansion (concatenated paths and handler-id lists) on a second Flame; every request (5 methods x all paths up to 2-3 segments over the program's literals) must run the same handler ids in the same order with the same parameters; non-trivial = request that runs at least one handler"
 	r.Bounds["programs"] = len(progs)
 	r.Bounds["paths"] = len(paths)
 	r.Bounds["methods"] = c11Methods
